@@ -66,9 +66,34 @@ inline bool in_subtree(long node, long root) { return node <= root && node > roo
 uint64_t sched_state_hash();
 extern uint64_t sched_hash_last;
 
+// identity of the five factorization locks: entries of lu_locks[] in the pthread build, the name objects of the
+// `#pragma omp critical (NAME)` sections in the OpenMP build
+#ifdef SIM_OMP
+} // namespace
+extern "C" {
+extern void *slu_omp_sched_lock __asm__(".gomp_critical_user_SCHED_LOCK");
+extern void *slu_omp_nsuper_lock __asm__(".gomp_critical_user_NSUPER_LOCK");
+extern void *slu_omp_llock __asm__(".gomp_critical_user_LLOCK");
+extern void *slu_omp_ulock __asm__(".gomp_critical_user_ULOCK");
+extern void *slu_omp_lulock __asm__(".gomp_critical_user_LULOCK");
+}
+namespace {
+const void *lock_addr(int which) {
+    switch (which) {
+    case SCHED_LOCK: return &slu_omp_sched_lock;
+    case NSUPER_LOCK: return &slu_omp_nsuper_lock;
+    case LLOCK: return &slu_omp_llock;
+    case ULOCK: return &slu_omp_ulock;
+    default: return &slu_omp_lulock;
+    }
+}
+#else
+const void *lock_addr(int which) { return &shared->lu_locks[which]; }
+#endif
+
 void on_init(long n, const void *ptr, long c) {
     shared = (pxgstrf_shared_t *)ptr; options = (superlumt_options_t *)c; Glu = shared->Glu; N = n; inited = true;
-    sim::note_sched_lock(&shared->lu_locks[SCHED_LOCK]);
+    sim::note_sched_lock(lock_addr(SCHED_LOCK));
     sim::note_tasks_remain((const void *)&shared->tasks_remain, (int)sizeof(int_t));
     col_state.assign(n, C_UNTAKEN); col_owner.assign(n, -1); pivots.assign(n, 0); releases.assign(n, 0);
     handed.assign(n + 1, 0); upd_ranges.assign(n, {}); upd_log.clear(); released_total = 0; extents_checked = false;
@@ -146,7 +171,7 @@ uint64_t sched_hash_last = 0;
 
 void check_lock(int task, int which, const char *what) {
     if (!shared) return;
-    if (sim::mutex_owner(&shared->lu_locks[which]) != task) viol("C03", "lock_discipline", fmt("%s outside its critical section", what));
+    if (sim::mutex_owner(lock_addr(which)) != task) viol("C03", "lock_discipline", fmt("%s outside its critical section", what));
 }
 
 void on_sched_cs(int task, long finished, long taken, long bcol) {
@@ -219,7 +244,7 @@ void on_event(int task, int kind, long pnum, long a, long b, long c, const void 
     switch (kind) {
     case SLU_EV_SCHED_ENTER:
         // nobody is inside the scheduler's critical section at this point (its only yield point is its last statement)
-        if (sim::mutex_owner(&shared->lu_locks[SCHED_LOCK]) < 0 && sched_state_hash() != sched_hash_last)
+        if (sim::mutex_owner(lock_addr(SCHED_LOCK)) < 0 && sched_state_hash() != sched_hash_last)
             viol("C04", "scheduler_state_changed_outside_lock", fmt("unfinished-children counters / task queue / tasks_remain differ from their values at the end of the last critical section (task with panel %ld entering the scheduler)", a));
         break;
     case SLU_EV_SCHED_CS: on_sched_cs(task, a, b, c); sched_hash_last = sched_state_hash(); break;
